@@ -5,45 +5,54 @@ expansion rebuilds fresh real objects and replays the prefix.  `mod.expand((root
 executes hist+[op] on the real code in lock-step with the reference model, checks the invariants of
 the *last* transition (earlier ones were checked when their history was expanded) and returns the
 canonical abstraction of the reached state.  Histories are merged only when the canonical keys -
-which include the reference state - agree.  Level-synchronous, expansions sharded over the pool.
+which include the reference state - agree.  Level-synchronous; the expansions of one level of ALL
+roots are sharded over the pool together.
 """
-from .acc import Acc, merge
+from .acc import merge
 
 
 def run(mod, tier, pool, total, seed=0):
-    depth = mod.depth(tier)
-    graph = dict(states=0, transitions=0, per_root=[], dedup_merged=0, depth=depth)
-    for root in mod.roots(tier):
-        ops = mod.ops(root, tier)
-        k0 = mod.root_key(root)
-        seen = {k0}
-        frontier = [[]]
-        trans = 0
-        merged = 0
-        for d in range(depth):
-            tasks = [(root, h, op) for h in frontier for op in ops if mod.enabled(root, h, op)]
-            nxt = []
-            chunk = max(1, len(tasks) // (pool._processes * 8)) if pool is not None else 1
-            it = pool.imap(mod.expand, tasks, chunk) if pool is not None else map(mod.expand, tasks)
-            for (r, h, op), res in zip(tasks, it):
-                merge(total, res["acc"])
-                if res["acc"].get("engine_error"):
-                    return graph
-                trans += 1
-                if res.get("dead"):
-                    continue  # transition refused by the real code AND by the reference: no new state
-                if res["key"] in seen:
-                    merged += 1
-                    continue
-                seen.add(res["key"])
-                nxt.append(h + [op])
-            frontier = nxt
-            if not frontier:
-                break
-        graph["states"] += len(seen)
-        graph["transitions"] += trans
-        graph["dedup_merged"] += merged
-        graph["per_root"].append(dict(root=root, states=len(seen), transitions=trans, merged=merged))
+    roots = list(mod.roots(tier))
+    R = []
+    for root in roots:
+        depth = root.get("depth", mod.depth(tier)) if isinstance(root, dict) else mod.depth(tier)
+        R.append(dict(root=root, depth=depth, ops=mod.ops(root, tier), seen={mod.root_key(root)}, frontier=[[]], trans=0, merged=0))
+    maxd = max(r["depth"] for r in R)
+    graph = dict(states=0, transitions=0, per_root=[], dedup_merged=0, depth=maxd)
+    for d in range(maxd):
+        tasks = []
+        owner = []
+        for i, r in enumerate(R):
+            if d >= r["depth"]:
+                continue
+            for h in r["frontier"]:
+                for op in r["ops"]:
+                    if mod.enabled(r["root"], h, op):
+                        tasks.append((r["root"], h, op))
+                        owner.append(i)
+            r["frontier"] = []
+        if not tasks:
+            break
+        chunk = max(1, len(tasks) // (pool._processes * 8)) if pool is not None else 1
+        it = pool.imap(mod.expand, tasks, chunk) if pool is not None else map(mod.expand, tasks)
+        for (root, h, op), i, res in zip(tasks, owner, it):
+            r = R[i]
+            merge(total, res["acc"])
+            if res["acc"].get("engine_error"):
+                return graph
+            r["trans"] += 1
+            if res.get("dead"):
+                continue  # a violating (or doubly refused) transition is reported once and not expanded further
+            if res["key"] in r["seen"]:
+                r["merged"] += 1
+                continue
+            r["seen"].add(res["key"])
+            r["frontier"].append(h + [op])
+    for r in R:
+        graph["states"] += len(r["seen"])
+        graph["transitions"] += r["trans"]
+        graph["dedup_merged"] += r["merged"]
+        graph["per_root"].append(dict(root=r["root"], depth=r["depth"], states=len(r["seen"]), transitions=r["trans"], merged=r["merged"]))
     total["states"] = total.get("states", 0) + graph["states"]
     total["transitions"] = total.get("transitions", 0) + graph["transitions"]
     total["traces"] = total.get("traces", 0) + graph["transitions"]
